@@ -16,13 +16,16 @@ fold in which the messages of the edges whose parent satisfies `ign` are skipped
   non-sample nodes swapped) on which the concrete linear-space model gives different results
   (finding F11; reproduced on the real code by the check).
 * The specified rule is `ignOldest time roots` (the roots of greatest input time).  For it the
-  property holds: `ignore_root_spec` says exactly which messages are dropped, and
+  property holds: `ignore_root_spec` says exactly which messages are dropped,
   `oldest_root_rule_invariant` that renumbering the nodes (and traversing the renumbered input in any
-  valid order) does not change any result.
+  valid order) does not change any result of the abstract pass, and
+  `insideOutside_oldest_root_invariant` the same for the concrete linear-space inside–outside model
+  that the check runs against the real code.
 * `code_rule_agrees_when_last_is_oldest`: on inputs whose unique oldest root has the highest id
   (msprime and tsinfer output — every input of the repository's tests) the two rules coincide.
 -/
 import TsdateVerif.Proofs.Passes
+import TsdateVerif.Proofs.PassesRelabel
 
 namespace Tsdate.C38
 open Tsdate Tsdate.Order
@@ -97,6 +100,35 @@ theorem oldest_root_rule_invariant {α : Type} [LinearOrder α] (π σ : Nat →
     gs hv hr gs' hv' hperm time' hval' st st' hsz hsz' hst
 
 end Spec
+
+section Concrete
+variable {α : Type} [Inhabited α] [Field α] [LinearOrder α] [IsStrictOrderedRing α]
+
+/-- **The specified rule on the concrete model.**  The linear-space inside–outside computation that
+the check runs against the real code (`insideOutside`, Model/Passes.lean), with the ignored set
+defined by time (`ignOldest`: the roots of greatest input time), gives the same outside rows under
+any renumbering of the nodes (`π`, with the node times and the root list carried along), any
+renumbering of the edge rows (`σ`), and any valid traversal orders of the renumbered input. -/
+theorem insideOutside_oldest_root_invariant (π σ : Nat → Nat) (n : Nat)
+    (hinj : Function.Injective π) (hlt : ∀ u, u < n → π u < n)
+    (d d' : GridData α) (h : DataRelabel π σ n d d')
+    (rootfrac rootfrac' : Nat → α) (hrf : ∀ u, u < n → rootfrac' (π u) = rootfrac u)
+    (time time' : Nat → α) (roots roots' : List Nat) (htime : ∀ u, time' (π u) = time u)
+    (hroots : ∀ v, v ∈ roots' ↔ v ∈ roots.map π) (std : Bool)
+    (insO outO insO' outO' : List DEdge)
+    (hvi : ValidFlat insO n) (hvo : ValidFlat outO n)
+    (hvi' : ValidFlat insO' n) (hvo' : ValidFlat outO' n)
+    (hpi : insO'.Perm (insO.map (relabelE π σ))) (hpo : outO'.Perm (outO.map (relabelE π σ)))
+    (hti : ∀ e ∈ insO', time' e.src < time' e.dst)
+    (hto : ∀ e ∈ outO', time' e.dst < time' e.src) :
+    ∀ u, u < n →
+      aget (insideOutside d' n rootfrac' (ignOldest time' roots') std insO' outO').2 (π u)
+        = aget (insideOutside d n rootfrac (ignOldest time roots) std insO outO).2 u :=
+  insideOutside_renumber π σ n (fun _ _ _ _ hh => hinj hh) hlt d d' h rootfrac rootfrac' hrf _ _
+    (fun p _ => ignOldest_relabel π hinj time time' roots roots' htime hroots p) std
+    insO outO insO' outO' hvi hvo hvi' hvo' hpi hpo time' hti hto
+
+end Concrete
 
 /-- On inputs whose unique oldest root has the highest node id the code's rule *is* the specified
 rule (why the repository's tests, which use msprime/tsinfer output, cannot see the defect). -/
